@@ -178,6 +178,12 @@ func (w *World) verifyFunc(fn *ssa.Function, ct *Contract, mode Mode) (res *Func
 		var rt types.Type = fn.Signature.Results()
 		bindResults(penv, packResults(vals, rt), fn, fn.Signature)
 		for i, c := range ct.Ensures {
+			if strings.HasPrefix(c.Label, "ghost-") {
+				// ghost token: an uninterpreted predicate that is DEFINED as "the state this function leaves";
+				// nothing to prove here, callers receive it (listed as an assumption in the evidence)
+				e.note("ensures[%s] is a ghost token: assumed at call sites, not proved", c.Label)
+				continue
+			}
 			goal := e.evalClause(penv, c)
 			e.oblige("ensures", fmt.Sprintf("ensures[%s]", clauseName(c, i)), exit.guard, goal, fn.Pos())
 		}
